@@ -1,5 +1,5 @@
 """C11 — field-layout validation accepts exactly the well-formed layouts."""
-import json, os, random, collections
+import copy, json, os, random, collections
 import vlib, adef
 from checks import gen_common, pipeline_common
 
@@ -104,6 +104,14 @@ def gen_def(rng, malformed_rate):
                                 fields_in=gen_fields(rng, si or 0, malformed) if si is not None or rng.random() < 0.2 else None,
                                 fields_out=gen_fields(rng, so or 0, malformed) if so is not None or rng.random() < 0.2 else None,
                                 byte_order=bo, allow_bit_overlap=allow)
+            if o.get("fields_in") and rng.random() < 0.3:
+                # an echo command: the out field list is EXACTLY the in field list, the two sizes are independent (seed
+                # C03-12: a pass that skips the out checks when the lists are equal never compares them with SIZE_BITS_OUT)
+                for f in o["fields_in"]:
+                    if f.get("conv") and f["conv"].get("type") == "enum":
+                        f["conv"] = None          # an inline enum declared twice is a NAME error, not this property's matter
+                o["fields_out"] = copy.deepcopy(o["fields_in"])
+                o["size_bits_out"] = rng.choice([so, 8, 12, 16, si])
         addr += 1
         objs.append(o)
     if len(objs) > 1 and rng.random() < 0.4:
